@@ -29,7 +29,7 @@ int main(int argc, char **argv) {
     std::string prop = argv[2], cid = argv[3];
     if (cid.compare(0, 2, "R|") == 0) return replay_reject(cid);
     if (cid.compare(0, 2, "F|") == 0 || cid.compare(0, 2, "K|") == 0 || cid.compare(0, 3, "BF|") == 0) return replay_line(prop, cid);
-    if (cid.compare(0, 3, "FZ|") == 0) return replay_fz(cid);
+    if (cid.compare(0, 3, "FZ|") == 0 || cid.compare(0, 3, "FO|") == 0) return replay_fz(cid);
     if (cid.compare(0, 4, "C17|") == 0 || cid.compare(0, 3, "C19") == 0) return replay_fi(cid);
     if (cid.compare(0, 4, "C20|") == 0) return replay_cli(cid);
     if (cid.compare(0, 4, "C07|") == 0 || cid.compare(0, 4, "C08|") == 0) return replay_buf(cid);
